@@ -34,7 +34,7 @@ def main(modname, prop, tier):
         signal.alarm(120)
         try:
             H.conformance(prop)
-        except Exception:
+        except BaseException:  # noqa  (incl. StepBound: a busy loop in the code under analysis must not stop the cells from running)
             desc['conformance_error'] = traceback.format_exc()[-3000:]
         finally:
             signal.alarm(0)
